@@ -139,6 +139,29 @@ theorem needGens_spec (g : Gh) (s : PState) (h : Inv s) (he : s.b .em = false) (
     obtain ⟨h1, h2, h3, h4⟩ := updateGenerators_spec g s h he hd hcu hc hgp
     exact ⟨h1, h2, fun hr => h4 (by simpa using hr), fun hr => (h3 (by simpa using hr)).gensReady⟩
 
+/-- the idiom of `add_recycled_generators`. -/
+theorem needGensMin_spec (g : Gh) (s : PState) (h : Inv s) (hd : s.dim ≠ 0) :
+    Inv (needGensMin g s).2 ∧ SameSet s (needGensMin g s).2
+    ∧ ((needGensMin g s).1 = true → (needGensMin g s).2.b .em = true)
+    ∧ ((needGensMin g s).1 = false → GensReady (needGensMin g s).2) := by
+  rcases Bool.eq_false_or_eq_true (s.b .cpend) with hc | hc
+  · obtain ⟨h1, h2, h3, h4⟩ := ppc_spec g s h hc
+    rcases Bool.eq_false_or_eq_true (processPendingConstraints g s).1 with hr | hr
+    · have hm := h3 hr
+      have e : needGensMin g s = (false, (processPendingConstraints g s).2) := by
+        simp [needGensMin, hc, hr, hm.gup]
+      rw [e]; exact ⟨h1, h2, fun hf => by simp at hf, fun _ => hm.gensReady⟩
+    · have e : needGensMin g s = (true, (processPendingConstraints g s).2) := by simp [needGensMin, hc, hr]
+      rw [e]; exact ⟨h1, h2, fun _ => h4 hr, fun hf => by simp at hf⟩
+  rcases Bool.eq_false_or_eq_true (s.b .gup) with hg | hg
+  · have he : s.b .em = false := by spec_tac [s.b .em] using []
+    have e : needGensMin g s = (false, s) := by simp [needGensMin, hc, hg]
+    rw [e]; exact ⟨h, Frame.refl _ _, fun hf => by simp at hf, fun _ => ⟨he, hg, hc⟩⟩
+  · have e : needGensMin g s = (!(minimize g s).1, (minimize g s).2) := by simp [needGensMin, hc, hg]
+    rw [e]
+    obtain ⟨h1, h2, h3, h4⟩ := minimize_spec g s h
+    exact ⟨h1, h2, fun hr => h4 (by simpa using hr), fun hr => ((h3 (by simpa using hr)).2 hd).gensReady⟩
+
 /-- `remove_pending_to_obtain_constraints()`. -/
 theorem removePendingToObtainConstraints_spec (g : Gh) (s : PState) (h : Inv s) (hp : s.hasSomethingPending = true) :
     Inv (removePendingToObtainConstraints g s) ∧ SameSet s (removePendingToObtainConstraints g s)
